@@ -113,7 +113,9 @@ def confinement(ctx):
         ctx.broken.append(('confinement:shared-state', '; '.join(bad[:5])))
 
 
-PROBES = ["select a, b from t where x = 1; select 2", "create table t (a int); insert into t values (1)", "SELECT foo FROM bar -- c\n; x"]
+PROBES = ["select a, b from t where x = 1; select 2", "create table t (a int); insert into t values (1)", "SELECT foo FROM bar -- c\n; x",
+          # nesting deep enough to show a depth counter / recursion guard that an earlier failed call left in a different state
+          "select " + "(" * 30 + "select f(x1, g(y1)) z1, a1 b1 from t1 where c1 = 1" + ")" * 30 + " from u1"]
 
 FIRST_CALL_SCRIPT = r'''
 import sys, json
@@ -242,12 +244,21 @@ def history_runs(ctx):
         # two lazily consumed streams advanced alternately, and an eager call in between: each must yield its own statements
         a = sqlparse.parsestream(io.StringIO('select a1; select a2; select a3'))
         b = sqlparse.parsestream('update b1 set x = 1; update b2 set x = 2')
-        got = [str(next(a)).strip(), str(next(b)).strip()]
+        ya = [next(a)]
+        yb = [next(b)]
         sqlparse.split(gen.mixed(rng))
-        got += [str(next(a)).strip(), str(next(b)).strip(), str(next(a)).strip()]
+        ya.append(next(a)); yb.append(next(b)); ya.append(next(a))
+        sqlparse.format('select 1', reindent=True)
+        got = [str(ya[0]).strip(), str(yb[0]).strip(), str(ya[1]).strip(), str(yb[1]).strip(), str(ya[2]).strip()]
         want = ['select a1;', 'update b1 set x = 1;', 'select a2;', 'update b2 set x = 2', 'select a3']
         if got != want:
             raise AssertionError(('interleaved parsestream generators disturbed each other', got, want))
+        # … and the statements they yield are the fully grouped trees an eager parse() gives (a pending generator must not see flags,
+        # stacks or splitters that a later call switched)
+        trees = [streams.sexp(x) for x in ya + yb]
+        eager = [streams.sexp(x) for x in sqlparse.parse('select a1; select a2; select a3')] + [streams.sexp(x) for x in sqlparse.parse('update b1 set x = 1; update b2 set x = 2')]
+        if trees != eager:
+            raise AssertionError(('statements yielded by a pending parsestream generator differ from the eager parse', trees, eager))
         ta = lexer.tokenize('select aa, bb from cc')
         tb = lexer.tokenize('delete from dd where ee = 1')
         mixed = []
@@ -255,7 +266,30 @@ def history_runs(ctx):
             mixed.append(next(ta)[1]); mixed.append(next(tb)[1])
         if ''.join(mixed[0::2]) != 'select aa,' or ''.join(mixed[1::2]) != 'delete from ':
             raise AssertionError(('interleaved tokenize generators disturbed each other', mixed))
-    ops = [op_parse, op_split, op_format, op_abandon, op_raise_opt, op_raise_type, op_deep, op_reconfig, op_bytes_enc, op_interleave]
+    def op_private_lexer():
+        # a caller's own Lexer object, configured for something else entirely, is not the library's default instance
+        lx = lexer.Lexer()
+        lx.clear()
+        lx.set_SQL_REGEX([(r'[a-z]+', T.Name), (r'\s+', T.Whitespace), (r'\d+', keywords.PROCESS_AS_KEYWORD)])
+        lx.add_keywords({'1': T.Keyword.DML, 'SELECT': T.Literal})
+        toks = [(str(tt), v) for tt, v in lx.get_tokens('select 1 x')]
+        if toks != [('Token.Name', 'select'), ('Token.Text.Whitespace', ' '), ('Token.Keyword.DML', '1'), ('Token.Text.Whitespace', ' '), ('Token.Name', 'x')]:
+            raise AssertionError(('a privately configured Lexer does not apply its own configuration', toks, 'its three rules'))
+        if rng.random() < 0.5:
+            lx2 = lexer.Lexer()
+            lx2.default_initialization()
+            lx2.add_keywords({'BAR': T.Keyword.DDL})
+    def op_deep_format():
+        # a formatting call that fails deep inside the statement filters
+        old = sys.getrecursionlimit()
+        sys.setrecursionlimit(260)
+        try:
+            sqlparse.format('select ' + '(' * 300 + '1' + ')' * 300, reindent=True, strip_comments=True)
+        except SQLParseError:
+            ctx.count('op_deep_format_raised')
+        finally:
+            sys.setrecursionlimit(old)
+    ops = [op_parse, op_split, op_format, op_abandon, op_raise_opt, op_raise_type, op_deep, op_reconfig, op_bytes_enc, op_interleave, op_private_lexer, op_deep_format, op_deep]
     for h in range(ctx.n(60, 1500)):
         hist = [rng.choice(ops) for _ in range(rng.randint(1, 8))]
         try:
@@ -376,8 +410,87 @@ def soak(ctx):
             break
 
 
+def contention_soak(ctx):
+    """thread effects made likely instead of lucky: four threads with a switch interval of one microsecond run parse/split/format over a
+    small set of texts chosen so that every mode a pass can be in differs between neighbours (CREATE TABLE vs calls, comments vs none,
+    line ends, nesting); every single result is compared with the sequential one"""
+    import sqlparse
+    texts = PROBES + ["create table tt (aa int, bb varchar(10))", "select f(x), g(y, 2) from tt", "select 1 -- c\nfrom x\r\nwhere 'a\nb' = c", "select a\n\n,b\n from t;\nselect 2",
+                      "insert into t values (1, 'x'), (2, 'y')", "select case when a then b else c end as d from e where f in (1, 2)", "/* c */ select * from \"Q x\".y z order by 1 desc",
+                      "create or replace view v as select count(*) from t group by a"]
+    def work(t):
+        return (sqlparse.split(t), sqlparse.format(t, reindent=True, keyword_case='upper'), sqlparse.format(t, strip_comments=True, use_space_around_operators=True),
+                [streams.sexp(x) for x in sqlparse.parse(t)])
+    want = [work(t) for t in texts]
+    bad = []
+    stop = threading.Event()
+    rounds = ctx.n(25, 250)
+    def runner(k):
+        r = random.Random(k)
+        for _ in range(rounds):
+            order = list(range(len(texts)))
+            r.shuffle(order)
+            for i in order:
+                if stop.is_set():
+                    return
+                try:
+                    got = work(texts[i])
+                except Exception as e:
+                    got = 'raised %s: %s' % (type(e).__name__, e)
+                if got != want[i]:
+                    bad.append((texts[i], got, want[i]))
+                    stop.set()
+                    return
+    old = sys.getswitchinterval()
+    sys.setswitchinterval(1e-6)
+    try:
+        ths = [threading.Thread(target=runner, args=(k,)) for k in range(4)]
+        for t in ths: t.start()
+        for t in ths: t.join()
+    finally:
+        sys.setswitchinterval(old)
+    ctx.evaluations += rounds * len(texts) * 4
+    ctx.count('contention_soak', rounds * len(texts) * 4)
+    # second phase: very short parses at a high rate (the window between a pass's scan of a token list and its decision is a few
+    # bytecodes wide); neighbours differ in every per-list decision (CREATE TABLE vs call, alias vs none, ordering, typed literal)
+    tiny = ["create table t (a int)", "select f(x)", "create table f (x int)", "select g (1), h(2)", "select a b, c as d", "select 1 x order by y desc", "select date '2020-01-01'",
+            "select a from t where b = 1 group by c", "(select 1)", "select [1], x[2]", "case when a then b end", "select a::int, b.c", "insert into t (a) values (1)", "select a -- c\n, b"]
+    want2 = [[streams.sexp(x) for x in sqlparse.parse(t)] for t in tiny]
+    bad2 = []
+    stop2 = threading.Event()
+    n2 = ctx.n(1200, 12000)
+    def runner2(k):
+        r = random.Random(100 + k)
+        for _ in range(n2):
+            if stop2.is_set():
+                return
+            i = r.randrange(len(tiny))
+            try:
+                got = [streams.sexp(x) for x in sqlparse.parse(tiny[i])]
+            except Exception as e:
+                got = 'raised %s: %s' % (type(e).__name__, e)
+            if got != want2[i]:
+                bad2.append((tiny[i], got, want2[i]))
+                stop2.set()
+                return
+    sys.setswitchinterval(1e-6)
+    try:
+        ths = [threading.Thread(target=runner2, args=(k,)) for k in range(6)]
+        for t in ths: t.start()
+        for t in ths: t.join()
+    finally:
+        sys.setswitchinterval(old)
+    ctx.evaluations += n2 * 6
+    ctx.count('contention_soak_tiny', n2 * 6)
+    bad += bad2
+    if bad:
+        t, got, w = bad[0]
+        ctx.fail('a call running concurrently with other calls (switch interval 1 microsecond) gives a different result than the sequential call', t, observed=str(got)[:300], required=str(w)[:300])
+
+
 def run(ctx):
     confinement(ctx)
+    contention_soak(ctx)
     first_call_scenarios(ctx)
     history_runs(ctx)
     schedule_runs(ctx)
